@@ -1,0 +1,24 @@
+//go:build verif
+
+// Contracts for package store, read by /verif/govc (comments only; never compiled into the package).
+package store
+
+/*@
+; ---- Dir: the API the agent (package main) programs against ---------------------------------------------
+
+(func "(*store.Dir).Authenticate"
+  (props C01 C02 C04 C12 C15)
+  (ensures error-is-denial (props C01 C02 C04 C06) (=> (not (= err nil)) (not isAuthenticated))))
+
+(func "(*store.Dir).AddUser" (props C01 C03 C08 C09 C14 C15 C16))
+(func "(*store.Dir).UpdateUser" (props C01 C02 C03 C08 C09 C12 C14 C15 C16))
+(func "(*store.Dir).SetAdmin" (props C01 C03 C09 C15 C16))
+(func "(*store.Dir).RemoveUser" (props C01 C03 C09 C15 C16))
+(func "(*store.Dir).Init" (props C08 C09 C16))
+(func "(*store.Dir).Check" (props C03 C15 C16))
+(func "(*store.Dir).List" (props C01 C02 C03 C15))
+(func "(*store.Dir).ListFull" (props C02 C03 C15))
+(func "(*store.Dir).Exists" (props C01 C03 C15))
+(func "store.NewDirFromConfig" (props C18)
+  (ensures returns-object (=> (= err nil) (not (isnil d)))))
+*/
